@@ -578,12 +578,29 @@ func (s sub) test() result {
 	x := s.v.Interface()
 	r := roundtrip(x, x)
 	if r.class == clsDecErr {
+		var firstDiff *result
 		for _, k := range kids(s) {
-			if rk := k.test(); rk.violation() {
-				rk.typeChanged = false
-				rk.why = "(in " + k.path + ") " + rk.why
-				return rk
+			rk := k.test()
+			if !rk.violation() {
+				continue
 			}
+			if rk.class == clsDifferent && rk.typeChanged && k.typed && k.slot != "ptr" {
+				// a value of the wrong type for a typed slot: that is what makes
+				// the decoder panic when it reaches this child before the erroring one
+				rk.class = clsPanicDecode
+			}
+			rk.typeChanged = false
+			rk.why = "(in " + k.path + ") " + rk.why
+			if rk.class != clsDifferent {
+				return rk // a panic below wins over a silent difference below
+			}
+			if firstDiff == nil {
+				c := rk
+				firstDiff = &c
+			}
+		}
+		if firstDiff != nil {
+			return *firstDiff
 		}
 	}
 	return r
